@@ -92,11 +92,25 @@ pub fn c14_exp_hessian_is_derivative_of_grad() {
 }
 
 /// higher_correction(ds, v) == -1/2 * d/dt [ H(z + t v) u ] at t=0, where H u = ds
-fn exp_higher_correction<const Q: u16>() {
+/// `basis`: u = lambda e_k, v = mu e_j with symbolic indices and symbolic field factors (the correction is
+/// bilinear in (u, v); the full-vector versions are the thorough tier)
+fn any_dir<const Q: u16>(basis: bool) -> [Fp<Q>; 3] {
+    if basis {
+        let k: usize = kani::any();
+        kani::assume(k < 3);
+        let mut e = [Fp::<Q>::zero(); 3];
+        e[k] = Fp::<Q>::any();
+        e
+    } else {
+        [Fp::<Q>::any(), Fp::<Q>::any(), Fp::<Q>::any()]
+    }
+}
+
+fn exp_higher_correction<const Q: u16>(basis: bool) {
     let z = any_point_q::<Q>();
     kani::assume((z[0].0 != 0 && z[2].0 != 0));
-    let v = [Fp::<Q>::any(), Fp::<Q>::any(), Fp::<Q>::any()];
-    let u = [Fp::<Q>::any(), Fp::<Q>::any(), Fp::<Q>::any()];
+    let v = any_dir::<Q>(basis);
+    let u = any_dir::<Q>(basis);
     let zj = jets_q::<Q>(&z, &v);
     let mut c = ExponentialCone::<Jet<Q>>::new();
     xh::update_dual_grad_H(&mut c, &zj);
@@ -148,17 +162,22 @@ fn exp_higher_correction<const Q: u16>() {
 #[kani::proof]
 #[kani::unwind(14)]
 pub fn c14_exp_higher_correction_is_third_derivative() {
-    exp_higher_correction::<13>();
+    exp_higher_correction::<13>(false);
+}
+#[kani::proof]
+#[kani::unwind(14)]
+pub fn c14_exp_higher_correction_basis() {
+    exp_higher_correction::<13>(true);
 }
 #[kani::proof]
 #[kani::unwind(14)]
 pub fn c14_exp_higher_correction_is_third_derivative_p7() {
-    exp_higher_correction::<7>();
+    exp_higher_correction::<7>(false);
 }
 #[kani::proof]
 #[kani::unwind(14)]
 pub fn c14_exp_higher_correction_is_third_derivative_p11() {
-    exp_higher_correction::<11>();
+    exp_higher_correction::<11>(false);
 }
 
 fn any_point_q<const Q: u16>() -> [Fp<Q>; 3] {
@@ -218,9 +237,9 @@ pub fn c14_pow_hessian_is_derivative_of_grad() {
     kani::cover!(j == 1 && h[1][1].a.0 > 1);
 }
 
-fn pow_higher_correction<const Q: u16>() {
-    let v = [Fp::<Q>::any(), Fp::<Q>::any(), Fp::<Q>::any()];
-    let u = [Fp::<Q>::any(), Fp::<Q>::any(), Fp::<Q>::any()];
+fn pow_higher_correction<const Q: u16>(basis: bool) {
+    let v = any_dir::<Q>(basis);
+    let u = any_dir::<Q>(basis);
     let (mut c, zj) = pow_setup_q::<Q>(&v);
     ph::set_z(&mut c, zj);
     let h = unpack(&ph::H_dual(&c));
@@ -253,7 +272,8 @@ fn pow_higher_correction<const Q: u16>() {
         assert!(eta[i].a * two == -want[i], "third_order_correction_is_minus_half_third_derivative_contracted_with_u_and_v");
         i += 1;
     }
-    kani::cover!(u[1].0 == 2 && v[0].0 == 3 && eta[1].a.0 > 0);
+    kani::cover!(eta[1].a.0 > 0 && eta[0].a.0 > 0, "nonzero correction reached");
+    kani::cover!(u[1].0 == 2 && v[0].0 == 3 && eta[1].a.0 > 0, "opt: nontrivial directions");
 }
 
 
@@ -271,17 +291,22 @@ fn pow_setup_q<const Q: u16>(dir: &[Fp<Q>; 3]) -> (PowerCone<Jet<Q>>, [Jet<Q>; 3
 #[kani::proof]
 #[kani::unwind(14)]
 pub fn c14_pow_higher_correction_is_third_derivative() {
-    pow_higher_correction::<13>();
+    pow_higher_correction::<13>(false);
+}
+#[kani::proof]
+#[kani::unwind(14)]
+pub fn c14_pow_higher_correction_basis() {
+    pow_higher_correction::<13>(true);
 }
 #[kani::proof]
 #[kani::unwind(14)]
 pub fn c14_pow_higher_correction_is_third_derivative_p7() {
-    pow_higher_correction::<7>();
+    pow_higher_correction::<7>(false);
 }
 #[kani::proof]
 #[kani::unwind(14)]
 pub fn c14_pow_higher_correction_is_third_derivative_p5() {
-    pow_higher_correction::<5>();
+    pow_higher_correction::<5>(false);
 }
 
 /// dual scaling fallback: Hs = mu * H
